@@ -47,6 +47,15 @@ pub fn run(args: &Args) {
                         // a third of the calls encrypt a file in place (source and destination are the same path)
                         let from = if k % 3 == 0 { enc_path.clone() } else { format!("{}/case-{}.src", args.out, k) };
                         std::fs::write(&from, &data).map_err(|e| e.to_string())?;
+                        if k % 5 == 1 {
+                            // the source is itself a password-protected (compound) file: protecting it again wraps these very bytes
+                            let inner = format!("{}/case-{}.inner", args.out, k);
+                            std::fs::write(&inner, &data).map_err(|e| e.to_string())?;
+                            writer::xlsx::set_password(&inner, &from, "first password").map_err(|e| format!("{:?}", e))?;
+                            let wrapped = std::fs::read(&from).map_err(|e| e.to_string())?;
+                            writer::xlsx::set_password(&from, &enc_path, &password).map_err(|e| format!("{:?}", e))?;
+                            return Ok(wrapped);
+                        }
                         writer::xlsx::set_password(&from, &enc_path, &password).map_err(|e| format!("{:?}", e))?;
                     }
                     Ok(data)
